@@ -96,6 +96,12 @@ Theorem C09_concat_guard_sound : forall free l1 l2 k,
   k = l1 + l2 /\ (k <= small_size \/ k * object_ObjectSize < free).
 Proof. exact array_concat_sound. Qed.
 
+Theorem C09_append_elem_guard_sound : forall free l k,
+  0 <= l -> l + 1 <= max_int ->
+  array_append_elem free l = Val k ->
+  k = l + 1 /\ (k <= small_size \/ k * object_ObjectSize < free).
+Proof. exact array_append_elem_sound. Qed.
+
 Theorem C09_string_concat_guard_sound : forall free l1 l2 k,
   0 <= l1 -> 0 <= l2 -> l1 + l2 <= max_int ->
   string_concat free l1 l2 = Val k ->
